@@ -178,8 +178,11 @@ def run(ctx):
                        "5 target durations x {v, v+a, a+v} x {single, lazy, mux}) + random built-tool runs on synthesized files (1-2 tracks, 1-36 "
                        "video samples, sync spacing 1..12/irregular, ctts none/zero/positive/negative, durations constant/variable/"
                        "zero, sdtp, 6 target-duration rules, modes single/lazy/mux, moov-first/mdat-first, stco/co64); resegmenter tool and "
-                       "Fragmentify on fragmented inputs (1-40 samples, 1-3 fragments per segment, styp/no styp, init/no init, "
-                       "OptimizeTrun on/off, decode-time gaps in 1/12); combine-segs tool on pairs of single-fragment inputs; oracle = "
+                       "Fragmentify on fragmented inputs (1-40 samples, 1-3 fragments per segment, 1-4 truns per traf in half of the "
+                       "inputs, a second traf in 1/7, styp/no styp, init/no init, per-sample fields vs tfhd defaults vs "
+                       "first-sample-flags (library OptimizeTrun and by hand), tfhd default-base-is-moof / no base flag / absolute "
+                       "base-data-offset / base-data-offset with trun data-offset absent, edit list in the init, non-zero first "
+                       "decode time, decode-time gaps in 1/12); combine-segs tool on pairs of single-fragment inputs; oracle = "
                        "concatenated per-track (bytes,dur,flags,cto,dts) of all outputs equals the input's + first video sample "
                        "of each segment is sync" % (n, n, nt))
     shutil.rmtree(TMP, ignore_errors=True)
